@@ -265,8 +265,126 @@ func c01LibraryStorage(r *core.Run) {
 	}
 }
 
+// c01SeparateStorage: tensors the library allocates storage for own that storage. The same option VALUES (an option
+// list built once) are applied to two tensors, every element of the first is overwritten, and the second - and a third
+// built after the writes - must still read what their construction gave them. Options that share storage by contract
+// (WithBacking, FromMemory) are not in the alphabet.
+func c01SeparateStorage(r *core.Run) {
+	r.SetBound("separate_storage", "option lists {FromScalar(x)}, {FromScalar(x), WithShape(1,1)}, {Of, WithShape}, {Of, WithShape, AsFortran(nil)}, Ones, each list applied three times (two before, one after the first tensor is overwritten); 7 element types; shapes (), (1,1), (2,3)")
+	type form struct {
+		id    string
+		opts  func(d ref.DT, shape []int) []tensor.ConsOpt
+		init  func(d ref.DT) interface{}
+		shape []int
+	}
+	scalarInit := func(d ref.DT) interface{} { return d.Code(5) }
+	zeroInit := func(d ref.DT) interface{} { return d.Zero() }
+	forms := []form{
+		{"FromScalar", func(d ref.DT, _ []int) []tensor.ConsOpt { return []tensor.ConsOpt{tensor.FromScalar(d.Code(5))} }, scalarInit, []int{}},
+		{"FromScalar+WithShape(1,1)", func(d ref.DT, _ []int) []tensor.ConsOpt {
+			return []tensor.ConsOpt{tensor.FromScalar(d.Code(5)), tensor.WithShape(1, 1)}
+		}, scalarInit, []int{1, 1}},
+		{"WithShape(1,1)+FromScalar", func(d ref.DT, _ []int) []tensor.ConsOpt {
+			return []tensor.ConsOpt{tensor.WithShape(1, 1), tensor.FromScalar(d.Code(5))}
+		}, scalarInit, []int{1, 1}},
+		{"Of+WithShape(2,3)", func(d ref.DT, _ []int) []tensor.ConsOpt {
+			return []tensor.ConsOpt{tensor.Of(d.D), tensor.WithShape(2, 3)}
+		}, zeroInit, []int{2, 3}},
+		{"Of+WithShape(2,3)+AsFortran", func(d ref.DT, _ []int) []tensor.ConsOpt {
+			return []tensor.ConsOpt{tensor.Of(d.D), tensor.WithShape(2, 3), tensor.AsFortran(nil)}
+		}, zeroInit, []int{2, 3}},
+		{"Of+WithShape(1)", func(d ref.DT, _ []int) []tensor.ConsOpt {
+			return []tensor.ConsOpt{tensor.Of(d.D), tensor.WithShape(1)}
+		}, zeroInit, []int{1}},
+	}
+	for _, d := range ref.ALL18 {
+		switch d.Name {
+		case "bool", "uint8", "int", "float32", "float64", "complex128", "string":
+		default:
+			continue
+		}
+		for _, f := range forms {
+			if !r.Take() {
+				continue
+			}
+			d, f := d, f
+			id := fmt.Sprintf("C01|separate|%s|%s", d.Name, f.id)
+			if r.ReplayCase != "" && id != r.ReplayCase {
+				continue
+			}
+			r.Case(id, true, func() *core.Fail {
+				tensor.VerifResetPools()
+				var a, b, c *tensor.Dense
+				var opts []tensor.ConsOpt
+				o := call(func() error {
+					opts = f.opts(d, f.shape)
+					a = tensor.New(opts...)
+					b = tensor.New(opts...)
+					return nil
+				})
+				if o.Class != "ok" || a == nil || b == nil {
+					return nil
+				}
+				n := ref.Prod(f.shape)
+				want := f.init(d)
+				coords := func(k int) []int {
+					co := make([]int, len(f.shape))
+					for ax := len(f.shape) - 1; ax >= 0; ax-- {
+						co[ax] = k % f.shape[ax]
+						k /= f.shape[ax]
+					}
+					return co
+				}
+				readAll := func(t *tensor.Dense, who string) *core.Fail {
+					for k := 0; k < n; k++ {
+						var v interface{}
+						var err error
+						if len(f.shape) == 0 {
+							v = t.ScalarValue()
+						} else {
+							v, err = t.At(coords(k)...)
+						}
+						if err != nil {
+							return core.F("unexpected-refusal", who, "At%v of the %s tensor: %v", coords(k), who, err)
+						}
+						if !ref.Same(v, want) {
+							return core.F("wrong-value", who, "tensors built from the same option values share storage: element %v of the %s tensor reads %v after every element of the FIRST tensor was overwritten, construction gave %v", coords(k), who, v, want)
+						}
+					}
+					return nil
+				}
+				if fl := readAll(a, "first"); fl != nil {
+					return fl
+				}
+				for k := 0; k < n; k++ {
+					mark := markerFor(d, want, k)
+					var err error
+					if len(f.shape) == 0 {
+						a.Set(0, mark)
+					} else {
+						err = a.SetAt(mark, coords(k)...)
+					}
+					if err != nil {
+						return core.F("unexpected-refusal", "set", "SetAt%v: %v", coords(k), err)
+					}
+				}
+				r.Op(3 * n)
+				if fl := readAll(b, "second"); fl != nil {
+					return fl
+				}
+				o = call(func() error { c = tensor.New(opts...); return nil })
+				if o.Class != "ok" || c == nil {
+					return core.F("unexpected-refusal", "third", "the option list that built two tensors refuses a third: %s", o.String())
+				}
+				return readAll(c, "built-afterwards")
+			})
+		}
+	}
+}
+
 func runC01(r *core.Run) {
 	c01LibraryStorage(r)
+	c01SeparateStorage(r)
 	shapes := c01Shapes(r)
 	r.SetBound("coordinate_box", "[-2,dim+1] on every axis, complete; every arity 0..rank+1")
 	viewDT := map[string]int{"bool": 1, "uint8": 2, "int16": 1, "float32": 1, "float64": 2, "complex128": 1, "string": 1}
